@@ -278,3 +278,61 @@ def phys_qnums(model, d=None):
     if model in ('linear_fermionic', 'molecular'):
         return [(0,), (1,)]
     raise KeyError(model)
+
+
+# ------------------------------------------------------------------------------------------------
+# selected columns of the molecular operators (for sizes whose full dense matrix is out of reach)
+
+def _column(M, terms, state):
+    """terms: iterable of (coeff, ops); returns dict row -> coefficient of the operator applied to |state>"""
+    out = {}
+    for coeff, ops in terms:
+        s = state; sign = 1
+        for kind, i in reversed(ops):
+            r = _apply(M, kind, i, s)
+            if r is None:
+                break
+            sign *= r[0]; s = r[1]
+        else:
+            t = coeff * sign
+            out[s] = out[s] + t if s in out else t
+    return out
+
+
+def molecular_terms(tkin, vint):
+    L = len(tkin)
+    half = Fraction(1, 2)
+    for i in range(L):
+        for j in range(L):
+            yield tkin[i][j], [('c', i), ('a', j)]
+    for i, j, k, l in itertools.product(range(L), repeat=4):
+        if i == j or k == l:
+            continue
+        yield vint[i][j][k][l] * half, [('c', i), ('c', j), ('a', l), ('a', k)]
+
+
+def spin_molecular_terms(tkin, vint):
+    L = len(tkin)
+    half = Fraction(1, 2)
+    for i in range(L):
+        for j in range(L):
+            for s in (0, 1):
+                yield tkin[i][j], [('c', 2 * i + s), ('a', 2 * j + s)]
+    for i, j, k, l in itertools.product(range(L), repeat=4):
+        for s in (0, 1):
+            for t in (0, 1):
+                ops = [('c', 2 * i + s), ('c', 2 * j + t), ('a', 2 * l + t), ('a', 2 * k + s)]
+                if ops[0][1] == ops[1][1] or ops[2][1] == ops[3][1]:
+                    continue
+                yield vint[i][j][k][l] * half, ops
+
+
+def operator_columns(nmodes, terms, states):
+    """{state: {row: coefficient}} of sum_terms coeff * string applied to the given occupation-number basis states"""
+    terms = [(c, ops) for c, ops in terms if not (hasattr(c, 'is_zero') and c.is_zero()) and not (not hasattr(c, 'is_zero') and c == 0)]
+    return {st: _column(nmodes, terms, st) for st in states}
+
+
+def states_up_to(nmodes, nmax):
+    """all occupation-number basis states with at most nmax particles"""
+    return [s for s in range(2 ** nmodes) if bin(s).count('1') <= nmax]
